@@ -2,7 +2,8 @@
 
 Monitors: reference-model monitor (the expected view is a plain StoreModel initialised with the fall-back content:
 shadowed by writes, masked by removals) after every operation over the whole universe + fall-back immutability
-snapshot compared after EVERY operation.
+snapshot compared after EVERY operation; after each history every key is also opened for writing through the overlay
+(file-handle interface) and the fall-back snapshot compared once more.
 """
 import random
 
@@ -80,11 +81,47 @@ def run_shard(spec):
         counters["ops." + combo] = counters.get("ops." + combo, 0) + steps
         counters["reads_compared"] = counters.get("reads_compared", 0) + reads
         counters["fallback_snapshots_compared"] = counters.get("fallback_snapshots_compared", 0) + steps
+        v = v + write_handle_probe(combo, mk, fbh, hist)
         for x in v:
             lst = violations.setdefault(x["sig"], [])
             if len(lst) < 2:
                 x["witness"].update({"combo": combo, "fallback": [SM.op_to_json(o) for o in fbh]})
                 lst.append(x)
+
+    def write_handle_probe(combo, mk, fbh, hist):
+        """The file-handle interface: after the history, every key is opened for writing through the overlay
+        (refusing is fine, and so is whatever the view shows afterwards); the only thing asserted is that the
+        fall-back looks exactly as before."""
+        built, model, extra = mk()
+        out = []
+        try:
+            fb = built.leaves[1]
+            try:
+                for op in hist:
+                    SM.apply_real(built.store, op)
+            except Exception:
+                return []
+            before = storecfg.snapshot_leaf(fb)
+            for k in UNIVERSE:
+                for mode in ("w", "wb"):
+                    counters["write_handles_tried"] = counters.get("write_handles_tried", 0) + 1
+                    try:
+                        with built.store.openbin(k, mode) as fh:
+                            fh.write(b"written through a handle")
+                        counters["write_handles_opened"] = counters.get("write_handles_opened", 0) + 1
+                    except Exception:
+                        pass
+                    now = storecfg.snapshot_leaf(fb)
+                    if now != before:
+                        out.append({"sig": "C15|overlay(%s)|openbin for writing|fallback_modified" % combo,
+                                    "what": "overlay(%s): openbin(%r, %r) and a write changed the fall-back store: %s" % (
+                                        combo, k, mode, storecfg.diff_snap([before], [now])),
+                                    "witness": {"label": "overlay(%s)" % combo, "history": [SM.op_to_json(o) for o in hist],
+                                                "then": ["openbin", k, mode]}})
+                        return out
+        finally:
+            built.close()
+        return out
 
     if "replay" in spec:
         w = spec["replay"]
@@ -131,7 +168,7 @@ def finalize(m, tier, seed):
     for c in COMBOS:
         if not m["counters"].get("ops." + c):
             inc.append("combination %s never exercised" % c)
-    for k in ("recreate_after_removal", "fallback_snapshots_compared", "reads_compared", "opkind.removedir_recursive",
+    for k in ("write_handles_tried", "recreate_after_removal", "fallback_snapshots_compared", "reads_compared", "opkind.removedir_recursive",
               "opkind.store_metadata", "opkind.store_metadata_rmw"):
         if not m["counters"].get(k):
             inc.append("coverage class %s empty" % k)
